@@ -13,8 +13,10 @@ package coscheduling
 import (
 	"context"
 	"encoding/json"
+	"flag"
 	"fmt"
 	"io"
+	"runtime"
 	"sort"
 	"strings"
 	"testing"
@@ -39,7 +41,11 @@ import (
 )
 
 func TestVerifSim(t *testing.T) {
-	klog.LogToStderr(false)
+	kfs := flag.NewFlagSet("klog", flag.ContinueOnError)
+	klog.InitFlags(kfs)
+	_ = kfs.Set("logtostderr", "false")
+	_ = kfs.Set("alsologtostderr", "false")
+	_ = kfs.Set("stderrthreshold", "FATAL")
 	klog.SetOutput(io.Discard)
 	// patchGangPendingPodsCondition needs a clientset + Parallelizer (API side effects only): out of scope
 	if err := k8sfeature.DefaultMutableFeatureGate.Set("GangPendingPodsConditionPatch=false"); err != nil {
@@ -83,6 +89,8 @@ type gvOp struct {
 	G      int    `json:"g,omitempty"`
 	P      string `json:"p,omitempty"`
 	Min    int    `json:"min,omitempty"`
+	Mode   string `json:"mode,omitempty"`   // pg_update: "strict" | "nonstrict" (annotation-only change)
+	Pol    string `json:"pol,omitempty"`    // pg_update: new match-policy annotation
 	Bound  bool   `json:"bound,omitempty"`  // pod_create: the pod already runs (fail-over)
 	Fit    bool   `json:"fit,omitempty"`    // sched: filter verdict
 	D      int    `json:"d,omitempty"`      // seconds (sleep / delay before a scheduling cycle)
@@ -145,10 +153,12 @@ type gvPod struct {
 }
 
 type gvPG struct {
-	g   int
-	rv  int
-	min int
-	obj *v1alpha1.PodGroup
+	g      int
+	rv     int
+	min    int
+	strict bool
+	policy string // annotation value ("" = no annotation: plugin default)
+	obj    *v1alpha1.PodGroup
 }
 
 type gvStore struct {
@@ -209,13 +219,13 @@ func (s *gvStore) pgObj(p *gvPG) *v1alpha1.PodGroup {
 		ObjectMeta: metav1.ObjectMeta{Name: gang.Name, Namespace: gvNS, UID: types.UID("pg-" + gang.Name), ResourceVersion: fmt.Sprint(p.rv),
 			Annotations: map[string]string{
 				extension.AnnotationGangTotalNum: fmt.Sprint(gang.Total),
-				extension.AnnotationGangMode:     s.cfg.modeString(p.g),
+				extension.AnnotationGangMode:     map[bool]string{true: extension.GangModeStrict, false: extension.GangModeNonStrict}[p.strict],
 				extension.AnnotationGangGroups:   s.cfg.groupAnnotation(p.g),
 			}},
 		Spec: v1alpha1.PodGroupSpec{MinMember: int32(p.min)},
 	}
-	if gang.Policy != "" {
-		pg.Annotations[extension.AnnotationGangMatchPolicy] = gang.Policy
+	if p.policy != "" {
+		pg.Annotations[extension.AnnotationGangMatchPolicy] = p.policy
 	}
 	if gang.WaitS > 0 {
 		pg.Spec.ScheduleTimeoutSeconds = ptr.To(int32(gang.WaitS))
@@ -231,17 +241,33 @@ func (s *gvStore) apply(op *gvOp) (evs []gvEvent, ok bool) {
 			return nil, false
 		}
 		s.rv++
-		pg := &gvPG{g: op.G, rv: s.rv, min: s.cfg.Gangs[op.G].Min}
+		pg := &gvPG{g: op.G, rv: s.rv, min: s.cfg.Gangs[op.G].Min, strict: s.cfg.Gangs[op.G].Strict, policy: s.cfg.Gangs[op.G].Policy}
 		pg.obj = s.pgObj(pg)
 		s.pgs[op.G] = pg
 		return []gvEvent{{typ: "pg", kind: "add", name: s.cfg.Gangs[op.G].Name, g: op.G, new: pg.obj}}, true
 	case "pg_update":
 		old := s.pgs[op.G]
-		if old == nil || op.Min < 1 || op.Min == old.min {
+		if old == nil {
+			return nil, false
+		}
+		pg := &gvPG{g: op.G, min: old.min, strict: old.strict, policy: old.policy}
+		if op.Min >= 1 {
+			pg.min = op.Min
+		}
+		switch op.Mode {
+		case "strict":
+			pg.strict = true
+		case "nonstrict":
+			pg.strict = false
+		}
+		if op.Pol != "" {
+			pg.policy = op.Pol
+		}
+		if pg.min == old.min && pg.strict == old.strict && pg.policy == old.policy {
 			return nil, false
 		}
 		s.rv++
-		pg := &gvPG{g: op.G, rv: s.rv, min: op.Min}
+		pg.rv = s.rv
 		pg.obj = s.pgObj(pg)
 		s.pgs[op.G] = pg
 		return []gvEvent{{typ: "pg", kind: "update", name: s.cfg.Gangs[op.G].Name, g: op.G, old: old.obj, new: pg.obj}}, true
@@ -302,7 +328,7 @@ func (s *gvStore) bind(name string) (ev *gvEvent, ok bool) {
 
 func (gangEngine) Generate(p *sim.Plan, g *sim.Rng) {
 	cfg := gvCfg{DefaultPolicy: g.Pick(extension.GangMatchPolicyOnceSatisfied, extension.GangMatchPolicyOnlyWaiting, extension.GangMatchPolicyWaitingAndRunning),
-		DefaultTimeoutS: g.PickInt(10, 30, 60), Readers: g.PickInt(0, 0, 1, 2)}
+		DefaultTimeoutS: g.PickInt(10, 30, 60), Readers: g.PickInt(0, 1, 1, 2)}
 	policies := []string{extension.GangMatchPolicyOnceSatisfied, extension.GangMatchPolicyOnlyWaiting, extension.GangMatchPolicyWaitingAndRunning, ""}
 	nGroups := 1
 	if g.Bool(0.3) {
@@ -416,6 +442,12 @@ func (gangEngine) Generate(p *sim.Plan, g *sim.Rng) {
 			op := gvOp{K: "sched", Fit: g.Bool(0.85)}
 			if g.Bool(0.2) {
 				op.D = g.PickInt(1, 2, 5, 10, 20, 40)
+				if g.Bool(0.5) {
+					// wake up exactly when the permit timer of a member that started waiting just before fires
+					op.D = int(cfg.waitOf(g.Intn(len(cfg.Gangs))) / time.Second)
+					add(op)
+					op = gvOp{K: "sched", Fit: true}
+				}
 			}
 			add(op)
 		case x < 52:
@@ -438,13 +470,27 @@ func (gangEngine) Generate(p *sim.Plan, g *sim.Rng) {
 		case x < 78:
 			// the victim is chosen at execution time among the pods that are in the permit stage or binding
 			add(gvOp{K: "pod_delete_inflight", Tomb: g.Bool(0.2)})
+			if g.Bool(0.6) {
+				// ... while the scheduling goroutine goes on with the other members of the gang
+				add(gvOp{K: "sched", Fit: true})
+				if g.Bool(0.5) {
+					add(gvOp{K: "sched", Fit: true})
+				}
+			}
 		case x < 84:
 			gi := g.Intn(len(cfg.Gangs))
 			if cfg.Gangs[gi].PG {
 				if st.pgs[gi] == nil {
 					add(gvOp{K: "pg_create", G: gi})
 				} else {
-					add(gvOp{K: "pg_update", G: gi, Min: g.Range(1, 4)})
+					switch g.Intn(4) {
+					case 0: // annotation-only updates: spec unchanged
+						add(gvOp{K: "pg_update", G: gi, Mode: g.Pick("strict", "nonstrict")})
+					case 1:
+						add(gvOp{K: "pg_update", G: gi, Pol: g.Pick(extension.GangMatchPolicyOnceSatisfied, extension.GangMatchPolicyOnlyWaiting, extension.GangMatchPolicyWaitingAndRunning)})
+					default:
+						add(gvOp{K: "pg_update", G: gi, Min: g.Range(1, 4)})
+					}
 				}
 			}
 		case x < 91:
@@ -478,6 +524,10 @@ type gvMPod struct {
 	waits     []gvIv // assumed/reserved and neither unreserved nor post-bound
 	bound     gvIv   // bound in the API (start = bind call applied / created bound) until the delete was delivered to the gang cache
 	permitted bool   // Permit returned Wait/Success and neither Unreserve nor PostBind completed yet
+	permitInv uint64 // latest Permit call of this pod: invoke / return stamps (return 0 while in progress)
+	permitRet uint64
+	boundSeen uint64 // the gang listener finished handling an event that carries the pod's node name
+	nodeDeliv []gvIv // the gang listener's handling of events that carry the pod's node name
 	lostAck   bool   // a bind of this pod was applied although the scheduler saw an error
 }
 
@@ -492,8 +542,11 @@ func ivOverlaps(iv gvIv, t0, now uint64) bool {
 	return iv.start != 0 && iv.start <= now && (iv.end == 0 || iv.end >= t0)
 }
 
-type gvMinVer struct {
+// gvVer is one version of a gang's definition (PodGroup spec + annotations) with its way through the informer.
+type gvVer struct {
 	min                  int
+	strict               bool
+	policy               string // effective match policy
 	storeSeq             uint64
 	delivStart, delivEnd uint64
 }
@@ -553,12 +606,14 @@ type gvSim struct {
 	waiting       map[string]*gvWP
 	iterating     int
 	permit        *gvPermitCtx
-	permitPending string // Permit returned Wait for this pod, the framework has not added it to the waiting map yet
+	permitPending string             // Permit returned Wait for this pod, the framework has not added it to the waiting map yet
+	unres         map[uint64]*gvMPod // goroutine -> member whose Unreserve it is executing
+	activity      int                // bumped when something starts that an observer may want to look into
 
 	// model
 	mp        map[string]*gvMPod
 	satisfied map[int]uint64 // group -> seq of the first bound member
-	minHist   map[int][]*gvMinVer
+	minHist   map[int][]*gvVer
 	pgAddDone map[int]uint64
 
 	schedQ    []gvOp
@@ -611,7 +666,14 @@ func (h *gvHandle) sortedWaiting() []*gvWP {
 // IterateOverWaitingPods: the framework holds the map's read lock for the whole iteration (add/remove wait).
 func (h *gvHandle) IterateOverWaitingPods(cb func(fwktype.WaitingPod)) {
 	s := h.s
-	s.r.Yield("wpmap:rlock")
+	if m := s.unres[gvGoid()]; m != nil {
+		// the roll-back of m becomes externally visible (the group is being rejected on its behalf): whatever the
+		// linearisation point of this Unreserve is, it is not later than this; m no longer counts as holding resources
+		// for a Permit invoked from now on
+		m.closeWait(s.r.Seq())
+		s.r.Probe("rollback-visible-before-unreserve-returned")
+	}
+	s.stall("wpmap:rlock")
 	ws := h.sortedWaiting()
 	if n := len(ws); n > 1 { // map iteration order is arbitrary
 		k := s.r.Choose(n)
@@ -751,7 +813,12 @@ func (s *gvSim) wpRemove(w *gvWP) {
 func (s *gvSim) emit(evs []gvEvent) {
 	for _, ev := range evs {
 		if ev.typ == "pg" {
-			v := &gvMinVer{min: int(ev.new.(*v1alpha1.PodGroup).Spec.MinMember), storeSeq: s.r.Seq()}
+			npg := ev.new.(*v1alpha1.PodGroup)
+			v := &gvVer{min: int(npg.Spec.MinMember), strict: npg.Annotations[extension.AnnotationGangMode] == extension.GangModeStrict,
+				policy: npg.Annotations[extension.AnnotationGangMatchPolicy], storeSeq: s.r.Seq()}
+			if v.policy == "" {
+				v.policy = s.cfg.DefaultPolicy
+			}
 			s.minHist[ev.g] = append(s.minHist[ev.g], v)
 			ev.ver = len(s.minHist[ev.g]) - 1
 			// coalescing: two consecutive updates of one object merged before any handler saw the first
@@ -789,6 +856,11 @@ func (s *gvSim) deliverGang(ev gvEvent) {
 	r := s.r
 	m := s.model(ev.name)
 	r.Event("gang-inf pod %s %s", ev.kind, ev.name)
+	s.activity++
+	carriesNode := ev.kind != "delete" && gvAssigned(ev.new.(*corev1.Pod))
+	if carriesNode {
+		m.nodeDeliv = append(m.nodeDeliv, gvIv{start: r.Seq()})
+	}
 	switch ev.kind {
 	case "add":
 		s.mgr.VerifOnPodAdd(ev.new)
@@ -812,6 +884,12 @@ func (s *gvSim) deliverGang(ev gvEvent) {
 		m.gangDelDone = r.Seq()
 		if m.bound.start != 0 && m.bound.end == 0 {
 			m.bound.end = m.gangDelDone
+		}
+	}
+	if carriesNode {
+		m.nodeDeliv[len(m.nodeDeliv)-1].end = r.Seq()
+		if m.boundSeen == 0 {
+			m.boundSeen = r.Seq()
 		}
 	}
 }
@@ -865,6 +943,7 @@ func (s *gvSim) deliverQueue(ev gvEvent) {
 func (s *gvSim) deliverPG(ev gvEvent) {
 	r := s.r
 	r.Event("pg-inf %s %s", ev.kind, ev.name)
+	s.activity++
 	v := s.minHist[ev.g][ev.ver]
 	v.delivStart = r.Seq()
 	switch ev.kind {
@@ -987,14 +1066,15 @@ func (s *gvSim) podsOfGang(g int) []*gvMPod {
 	return out
 }
 
-// minAdmissible: the smallest minimum the gang cache may legitimately hold at some instant of [t0, now]; -1 = the gang is undefined.
-func (s *gvSim) minAdmissible(g int, t0, now uint64) int {
+// admissible: the versions of the gang's definition the gang cache may legitimately hold at some instant of [t0, now]
+// (the one in effect at t0 and everything written to the API since); empty = the gang is undefined.
+func (s *gvSim) admissible(g int, t0, now uint64) []*gvVer {
 	gang := s.cfg.Gangs[g]
 	if !gang.PG {
 		if len(s.podsOfGang(g)) == 0 {
-			return -1
+			return nil
 		}
-		return gang.Min
+		return []*gvVer{{min: gang.Min, strict: gang.Strict, policy: s.cfg.policyOf(g)}}
 	}
 	vs := s.minHist[g]
 	first := 0
@@ -1003,13 +1083,13 @@ func (s *gvSim) minAdmissible(g int, t0, now uint64) int {
 			first = i
 		}
 	}
-	min := -1
+	var out []*gvVer
 	for _, v := range vs[first:] {
-		if v.storeSeq <= now && (min < 0 || v.min < min) {
-			min = v.min
+		if v.storeSeq <= now {
+			out = append(out, v)
 		}
 	}
-	return min
+	return out
 }
 
 // checkRelease is oracle 1: a pod leaves the permit stage (Allow on a waiting pod, or Permit == Success).
@@ -1023,32 +1103,45 @@ func (s *gvSim) checkRelease(pod string, g int, kind string) {
 	}
 	grp := s.cfg.Gangs[g].Group
 	for _, k := range s.cfg.groupOf(g) {
-		pol := s.cfg.policyOf(k)
-		if pol == extension.GangMatchPolicyOnceSatisfied && s.satisfied[grp] != 0 {
-			r.Probe("release-after-once-satisfied")
-			continue
-		}
-		cnt := 0
-		var who []string
-		for _, m := range s.podsOfGang(k) {
-			held := false
-			for _, iv := range m.waits {
-				if ivOverlaps(iv, t0, now) {
+		vers := s.admissible(k, t0, now)
+		justified := false
+		var why []string
+		for _, v := range vers {
+			if v.policy == extension.GangMatchPolicyOnceSatisfied && s.satisfied[grp] != 0 {
+				r.Probe("release-after-once-satisfied")
+				justified = true
+				break
+			}
+			cnt := 0
+			var who []string
+			for _, m := range s.podsOfGang(k) {
+				held := false
+				for _, iv := range m.waits {
+					if ivOverlaps(iv, t0, now) {
+						held = true
+					}
+				}
+				if v.policy == extension.GangMatchPolicyWaitingAndRunning && ivOverlaps(m.bound, t0, now) {
 					held = true
 				}
+				if held {
+					cnt++
+					who = append(who, m.name)
+				}
 			}
-			if pol == extension.GangMatchPolicyWaitingAndRunning && ivOverlaps(m.bound, t0, now) {
-				held = true
+			if cnt >= v.min {
+				justified = true
+				break
 			}
-			if held {
-				cnt++
-				who = append(who, m.name)
-			}
+			why = append(why, fmt.Sprintf("{policy %s min %d: %d holding %v}", v.policy, v.min, cnt, who))
 		}
-		min := s.minAdmissible(k, t0, now)
-		if min < 0 || cnt < min {
-			r.Fail("release-soundness", kind+"/"+pol, "pod %s released (%s) while gang %s of its group has only %d member(s) %v holding resources under every admissible linearisation, minimum %d (policy %s, group satisfied=%v)",
-				pod, kind, s.cfg.Gangs[k].Name, cnt, who, min, pol, s.satisfied[grp] != 0)
+		if !justified {
+			pol := "undefined"
+			if len(vers) > 0 {
+				pol = vers[len(vers)-1].policy
+			}
+			r.Fail("release-soundness", kind+"/"+pol, "pod %s released (%s) while gang %s of its group does not have its minimum of members holding resources under any admissible linearisation and gang definition: %v (group satisfied=%v)",
+				pod, kind, s.cfg.Gangs[k].Name, why, s.satisfied[grp] != 0)
 		}
 	}
 	r.Probe("release-checked:" + kind)
@@ -1076,9 +1169,6 @@ func (s *gvSim) gangKnownInit(g int, t0 uint64) bool {
 
 // strictBefore/strictAfter are oracle 3 around Unreserve and AfterPostFilter of a member.
 func (s *gvSim) strictBefore(g int, kind string) *gvStrictSnap {
-	if !s.cfg.Gangs[g].Strict {
-		return nil
-	}
 	snap := &gvStrictSnap{g: g, kind: kind, t0: s.r.Seq()}
 	for _, w := range s.h.sortedWaiting() {
 		if s.cfg.Gangs[w.g].Group == s.cfg.Gangs[g].Group && w.signal == "" {
@@ -1097,9 +1187,18 @@ func (s *gvSim) strictAfter(snap *gvStrictSnap) {
 		r.Probe("strict-check-skipped:gang-not-certainly-known")
 		return
 	}
-	if s.cfg.policyOf(snap.g) == extension.GangMatchPolicyOnceSatisfied && s.satisfied[s.cfg.Gangs[snap.g].Group] != 0 {
-		r.Probe("strict-check-skipped:once-satisfied")
+	vers := s.admissible(snap.g, snap.t0, r.Seq())
+	if len(vers) == 0 {
 		return
+	}
+	for _, v := range vers {
+		if !v.strict {
+			return // the gang cache may legitimately see the gang as non-strict
+		}
+		if v.policy == extension.GangMatchPolicyOnceSatisfied && s.satisfied[s.cfg.Gangs[snap.g].Group] != 0 {
+			r.Probe("strict-check-skipped:once-satisfied")
+			return
+		}
 	}
 	r.OracleEval()
 	for _, k := range s.cfg.groupOf(snap.g) {
@@ -1225,9 +1324,13 @@ func (s *gvSim) scheduleOne(op gvOp) {
 		// group through), so Permit may record it in a Gang object that the cache is dropping or about to re-create
 		r.Tag("permit-before-gang-cache-saw-pod")
 	}
+	s.activity++
+	s.observe("before-permit")
 	s.permit = &gvPermitCtx{pod: name, g: m.g, invoke: r.Seq()}
 	m.openWait(s.permit.invoke)
+	m.permitInv, m.permitRet = s.permit.invoke, 0
 	pst, wait := s.cs.Permit(s.ctx(), state, assumed, gvNode)
+	m.permitRet = r.Seq()
 	r.Event("permit %s -> %v %v", name, pst.Code(), wait)
 	switch {
 	case pst.IsSuccess():
@@ -1258,8 +1361,26 @@ func (s *gvSim) scheduleOne(op gvOp) {
 	}
 }
 
+// gvGoid identifies the calling goroutine (only used to attribute call-backs into the framework stub to the
+// extension-point call they come from; never enters the event log).
+func gvGoid() uint64 {
+	var b [64]byte
+	n := runtime.Stack(b[:], false)
+	var id uint64
+	for _, c := range b[len("goroutine "):n] {
+		if c < '0' || c > '9' {
+			break
+		}
+		id = id*10 + uint64(c-'0')
+	}
+	return id
+}
+
 func (s *gvSim) unreserve(pod *corev1.Pod, state fwktype.CycleState, kind string) {
 	m := s.model(pod.Name)
+	s.activity++
+	gid := gvGoid()
+	s.unres[gid] = m // no defer: deferred harness code must not touch shared state while an aborted run unwinds
 	snap := s.strictBefore(m.g, "unreserve")
 	for _, k := range s.cfg.groupOf(m.g) {
 		for _, o := range s.podsOfGang(k) {
@@ -1270,6 +1391,7 @@ func (s *gvSim) unreserve(pod *corev1.Pod, state fwktype.CycleState, kind string
 	}
 	s.r.Event("%s %s", kind, pod.Name)
 	s.cs.Unreserve(s.ctx(), state, pod, gvNode)
+	delete(s.unres, gid)
 	m.closeWait(s.r.Seq())
 	m.permitted = false
 	s.strictAfter(snap)
@@ -1400,6 +1522,85 @@ func setList(x interface{ UnsortedList() []string }) []string {
 	return l
 }
 
+// observe is oracle 2 at an arbitrary instant: one GetGangSummaries call (each gang is read under its own lock, so
+// every gang's four sets are one consistent snapshot). "Always in exactly one set" is checked for every member, with
+// the exceptions a history legitimately produces while operations are in progress:
+//   - a child in no set: only while the gang cache is between the two steps of handling an add/update that carries
+//     the pod's node name;
+//   - pending+bound: only until the event carrying the node name has been handled (a stale update after PostBind);
+//   - a waiting member that is not a child: only when its own Permit overlapped or followed the handling of its
+//     delete event (the pod is in flight and will be unreserved), or the cache has not seen its add yet;
+//   - anything else that is not a child: never.
+func (s *gvSim) observe(tag string) {
+	r := s.r
+	r.OracleEval()
+	// the gangs are read one after the other: an exception counts if it applied at some instant of [t0, now]
+	t0 := r.Seq()
+	sums := s.mgr.GetGangSummaries()
+	now := r.Seq()
+	ids := make([]string, 0, len(sums))
+	for id := range sums {
+		ids = append(ids, id)
+	}
+	sort.Strings(ids)
+	for _, id := range ids {
+		sum := sums[id]
+		in := map[string][]string{}
+		for _, p := range setList(sum.PendingChildren) {
+			in[p] = append(in[p], "pending")
+		}
+		for _, p := range setList(sum.WaitingForBindChildren) {
+			in[p] = append(in[p], "waiting")
+		}
+		for _, p := range setList(sum.BoundChildren) {
+			in[p] = append(in[p], "bound")
+		}
+		all := setList(sum.Children)
+		for p := range in {
+			if !sum.Children.Has(p) {
+				all = append(all, p)
+			}
+		}
+		sort.Strings(all)
+		for _, p := range all {
+			name := strings.TrimPrefix(p, gvNS+"/")
+			m := s.mp[name]
+			if m == nil {
+				continue
+			}
+			sets, child := in[p], sum.Children.Has(p)
+			bad := ""
+			switch {
+			case child && len(sets) == 0:
+				bad = "child-in-no-set"
+				for _, iv := range m.nodeDeliv {
+					if ivOverlaps(iv, t0, now) {
+						bad = ""
+					}
+				}
+			case len(sets) > 1:
+				if strings.Join(sets, "+") != "pending+bound" || (m.boundSeen != 0 && m.boundSeen < t0) {
+					bad = strings.Join(sets, "+")
+				}
+			case !child && (m.gangAddDone == 0 || m.gangAddDone >= t0):
+				// the cache has not (completely) handled the pod's add yet
+			case !child && sets[0] == "waiting":
+				if m.gangDelStart == 0 || (m.permitRet != 0 && m.permitRet < m.gangDelStart) {
+					bad = "waiting-not-child"
+				}
+			case !child:
+				bad = sets[0] + "-not-child"
+			}
+			if bad != "" {
+				r.Fail("partition-instant", bad, "observed (%s) gang %s: member %s is child=%v in sets %v (children=%v pending=%v waiting=%v bound=%v; delete event handling started=%v finished=%v, last Permit returned before it=%v)",
+					tag, id, p, child, sets, setList(sum.Children), setList(sum.PendingChildren), setList(sum.WaitingForBindChildren), setList(sum.BoundChildren),
+					m.gangDelStart != 0, m.gangDelDone != 0, m.permitRet != 0 && m.permitRet < m.gangDelStart)
+			}
+		}
+	}
+	r.Probe("observed:" + tag)
+}
+
 // checkQuiescent is oracle 2 (partition and agreement with the model) at a point where no operation is in progress.
 func (s *gvSim) checkQuiescent(tag string) {
 	r := s.r
@@ -1494,7 +1695,7 @@ func (s *gvSim) checkQuiescent(tag string) {
 func (gangEngine) Execute(r *sim.Run) {
 	s := &gvSim{r: r, lister: map[string]*corev1.Pod{}, busy: map[string]bool{}, qState: map[string]string{}, qObj: map[string]*corev1.Pod{},
 		popped: map[string]bool{}, assumed: map[string]bool{}, cacheBound: map[string]bool{}, waiting: map[string]*gvWP{}, mp: map[string]*gvMPod{},
-		satisfied: map[int]uint64{}, minHist: map[int][]*gvMinVer{}, pgAddDone: map[int]uint64{}}
+		unres: map[uint64]*gvMPod{}, satisfied: map[int]uint64{}, minHist: map[int][]*gvVer{}, pgAddDone: map[int]uint64{}}
 	r.Plan.GetCfg(&s.cfg)
 	var ops []gvOp
 	r.Plan.GetOps(&ops)
@@ -1603,8 +1804,8 @@ func (s *gvSim) runPhase(burst []gvOp, final bool) {
 				continue
 			}
 			r.OpDone()
-			r.Sample("%s g=%d p=%s min=%d bound=%v", op.K, op.G, op.P, op.Min, op.Bound)
-			r.Event("api %s g=%d p=%s min=%d", op.K, op.G, op.P, op.Min)
+			r.Sample("%s g=%d p=%s min=%d mode=%s pol=%s bound=%v", op.K, op.G, op.P, op.Min, op.Mode, op.Pol, op.Bound)
+			r.Event("api %s g=%d p=%s min=%d mode=%s pol=%s", op.K, op.G, op.P, op.Min, op.Mode, op.Pol)
 			if op.K == "pod_create" {
 				m := &gvMPod{name: op.P, g: op.G}
 				if op.Bound {
@@ -1684,10 +1885,15 @@ func (s *gvSim) runPhase(burst []gvOp, final bool) {
 	if !final {
 		for i := 0; i < s.cfg.Readers; i++ {
 			r.Spawn(fmt.Sprintf("reader%d", i), func() {
-				for k := 0; k < 3; k++ {
-					r.Yield("reader")
-					sums := s.mgr.GetGangSummaries()
-					_ = len(sums)
+				// a summary reader (the plugin's debug service): wakes when something starts, at most 12 looks per burst
+				seen := -1
+				for k := 0; k < 12; k++ {
+					r.WaitUntil("reader", func() bool { return s.activity != seen || s.apiDone })
+					if s.activity == seen {
+						return
+					}
+					seen = s.activity
+					s.observe("reader")
 				}
 			})
 		}
